@@ -3,7 +3,7 @@
     containment are judged on every engine journal by the monitor clauses (3,_)
     of [EngineMon]. *)
 From Coq Require Import List ZArith Bool Arith.
-From FF Require Import Sx TaskTree TaskTreeFacts Engine EngineFacts EngineSettle EngineRefute.
+From FF Require Import Sx TaskTree TaskTreeFacts Engine EngineFacts EngineSettle EngineRefute EngineLive.
 Import ListNotations.
 
 Theorem C03_failed_has_witness : forall t v,
@@ -58,13 +58,51 @@ Theorem C03_engine_never_stuck : forall tasks deps validate (rank : Z -> nat),
   (forall t d, In t tasks -> In d (deps t) -> In d tasks) ->
   forall ls s, run tasks deps validate true true boot ls = Some s ->
   quiet tasks s = false \/ ph s = PInit \/ ph s = PDown ->
-  exists l s', external l = false /\ step tasks deps validate true true s l = Some s'.
+  exists l s', operator l = false /\ step tasks deps validate true true s l = Some s'.
 Proof.
   intros tasks deps validate rank Hnd Hrank Hclosed ls s Hr Hq.
   apply (engine_not_stuck tasks deps validate s); [|exact Hq].
   exact (invq_reach tasks deps validate rank Hnd Hrank Hclosed ls boot s (invq_boot tasks deps) Hr).
 Qed.
 Print Assumptions C03_engine_never_stuck.
+
+(** ... only finitely many steps of its own can follow one another (a measure - a weight per task read off its
+    status and the place of its token, plus a term for a pending re-initialisation - strictly decreases with each;
+    the steps of the operator / command watcher, the watchdog and a crash are the environment's) ... *)
+Theorem C03_engine_own_steps_bounded : forall tasks deps validate (rank : Z -> nat),
+  NoDup tasks ->
+  (forall t d, In d (deps t) -> (rank d < rank t)%nat) ->
+  (forall t d, In t tasks -> In d (deps t) -> In d tasks) ->
+  forall ls0 s ls s', run tasks deps validate true true boot ls0 = Some s ->
+  run tasks deps validate true true s ls = Some s' -> forallb (fun l => negb (operator l)) ls = true ->
+  (length ls + measure tasks s' <= measure tasks s)%nat.
+Proof.
+  intros tasks deps validate rank Hnd Hrank Hclosed ls0 s ls s' Hr0 Hr Hall.
+  apply (engine_steps_bounded tasks deps validate rank Hnd Hrank Hclosed ls s s'); try assumption.
+  exact (invq_reach tasks deps validate rank Hnd Hrank Hclosed ls0 boot s (invq_boot tasks deps) Hr0).
+Qed.
+Print Assumptions C03_engine_own_steps_bounded.
+
+(** ... and where they end - no command stored, no task left recorded running - the instance is settled.  This is
+    "every started instance settles" for the restricted system under weak fairness of the engine's goroutines: its
+    own steps are finitely many, one is enabled as long as anything is in flight, and rest is a settled state. *)
+Theorem C03_engine_rest_is_settled : forall tasks deps validate (rank : Z -> nat),
+  NoDup tasks ->
+  (forall t d, In d (deps t) -> (rank d < rank t)%nat) ->
+  (forall t d, In t tasks -> In d (deps t) -> In d tasks) ->
+  forall ls s, run tasks deps validate true true boot ls = Some s ->
+  (forall l s', step tasks deps validate true true s l = Some s' -> operator l = true) ->
+  cmd s = false -> (forall t, In t tasks -> store s t <> SRunning) ->
+  ins s <> IRunning /\
+  (ins s = ISuccess <-> forall t, In t tasks -> done (store s t) = true) /\
+  (ins s = IFailed -> exists t, In t tasks /\ store s t = SFailed) /\
+  (ins s = IBlocked -> exists t, In t tasks /\ store s t = SBlocked).
+Proof.
+  intros tasks deps validate rank Hnd Hrank Hclosed ls s Hr Hrest Hc Hnr.
+  apply (rest_is_settled tasks deps validate s); try assumption.
+  exact (invq_reach tasks deps validate rank Hnd Hrank Hclosed ls boot s (invq_boot tasks deps) Hr).
+Qed.
+Print Assumptions C03_engine_rest_is_settled.
 
 Theorem C03_engine_stale_event_refuted :
   exists s, run [1]%Z nodeps true false true boot w_stale_event = Some s /\
